@@ -489,6 +489,15 @@ def run_case(case, tape, ctx):
                     c.sched_abs(base + delta, task)
             except sclk.ClockNotRunning:
                 call['notrunning'] = True
+            except AttributeError:
+                # the asynchronous stop() of this TempoClock completed while
+                # the call was blocked on the lock (the clock drops its
+                # condition): outside what the property states
+                m.call.pop(me, None)
+                if cname not in m.stopping:
+                    raise
+                m.bump('sched-raced-with-stop')
+                return
             finally:
                 m.call.pop(me, None)
             call['exit'] = m.elapsed()
